@@ -2131,7 +2131,7 @@ func ruleGlobalOperandInterned(c *Ctx, rule string) {
 				"the operand is the index stored in the symbol, taken from the constants of the compilation that declared the global: a symbol table that outlives those constants (a failed Eval fragment, a re-used table) yields Bytecode whose global instructions index past the constant pool - a successful Compile returns malformed Bytecode and the VM panics on it")
 		})
 	}
-	if n < 3 {
+	if n < 1 {
 		c.Und(rule, "emissions of OpGetGlobal / OpSetGlobal", "-", fmt.Sprintf("only %d found", n))
 	}
 }
